@@ -104,11 +104,9 @@ Section Proofs.
                answers (step st e) = answers st ++ combine b (run_model (map rpos b)) /\
                completed (step st e) = S (completed st)).
   Proof.
-    destruct e as [r t|t|t]; cbn [Server.step].
-    - left. destruct (qlen (queue st) <? cap).
-      + destruct (resume_log (mkSt A (queue st ++ [r]) (blocked st) (wk st) (started st) (answers st) (completed st)) t) as [H1 H2].
-        rewrite H1, H2. split; reflexivity.
-      + split; reflexivity.
+    destruct e as [r t|t|t|t]; cbn [Server.step].
+    - left. destruct (qlen (queue st) <? cap); split; reflexivity.
+    - left. apply resume_log.
     - left. destruct (wk st) as [|b d|b]; try (split; reflexivity).
       destruct (d <=? t); split; reflexivity.
     - destruct (wk st) as [|b d|b] eqn:Ew; try (left; split; reflexivity).
@@ -120,18 +118,21 @@ Section Proofs.
   (* ---- the invariant of reachable states; arr = requests that arrived so far, in order *)
   Definition wk_ok (st : state) : Prop :=
     match wk st with
-    | Idle => queue st = [] /\ blocked st = []
-    | Gathering b _ => queue st = [] /\ blocked st = [] /\ b <> [] /\ qlen b < threshold
+    | Idle => True
+    | Gathering b _ => b <> [] /\ qlen b < threshold
     | Running b => b <> []
     end.
   Definition running_batch (st : state) : list req := match wk st with Running b => b | _ => [] end.
+  (* a model call: not empty, and at most threshold - 1 requests gathered before the queue (at most cap) was drained *)
+  Definition batch_ok (tb : Z * list req) : Prop := snd tb <> [] /\ qlen (snd tb) <= threshold - 1 + cap.
 
   Record Inv (arr : list req) (st : state) : Prop := {
     inv_order : map fst (answers st) ++ pending st = arr;
     inv_cap : qlen (queue st) <= cap;
     inv_wk : wk_ok st;
     inv_blocked : blocked st <> [] -> qlen (queue st) = cap;
-    inv_started : concat (map snd (started st)) = map fst (answers st) ++ running_batch st
+    inv_started : concat (map snd (started st)) = map fst (answers st) ++ running_batch st;
+    inv_batches : Forall batch_ok (started st)
   }.
 
   Lemma Inv_init : Inv [] (init A).
@@ -140,13 +141,16 @@ Section Proofs.
   Lemma concat_snoc (l : list (Z * list req)) t b : concat (map snd (l ++ [(t, b)])) = concat (map snd l) ++ b.
   Proof. rewrite map_app, concat_app. cbn. rewrite app_nil_r. reflexivity. Qed.
 
+  Lemma Forall_snoc {X} (P : X -> Prop) l x : Forall P l -> P x -> Forall P (l ++ [x]).
+  Proof. intros H1 H2. apply Forall_app. split; [exact H1|constructor; [exact H2|constructor]]. Qed.
+
   Lemma blocked_nil_of_short (arr : list req) (st : state) : Inv arr st -> qlen (queue st) < cap -> blocked st = [].
   Proof.
     intros I H. destruct (blocked st) as [|p bl] eqn:E; [reflexivity|].
     assert (qlen (queue st) = cap) by (apply (inv_blocked _ _ I); rewrite E; discriminate). lia.
   Qed.
 
-  (* a worker suspended in a get (Idle or Gathering) is woken with queue q, blocked bl *)
+  (* a worker suspended in a get (Idle or Gathering) runs with queue q, blocked bl *)
   Lemma Inv_resume (arr : list req) (st : state) t :
     (forall b, wk st <> Running b) ->
     queue st <> [] -> qlen (queue st) <= cap ->
@@ -154,12 +158,19 @@ Section Proofs.
     (match wk st with Gathering b _ => qlen b < threshold | _ => True end) ->
     map fst (answers st) ++ pending st = arr ->
     concat (map snd (started st)) = map fst (answers st) ->
+    Forall batch_ok (started st) ->
     Inv arr (resume st t).
   Proof.
-    intros Hw Hq Hc Hb Hg Ho Hs.
+    intros Hw Hq Hc Hb Hg Ho Hs Hf.
     rewrite (resume_spec st t Hq Hc Hw).
     set (n := length (queue st)). set (B := batch_of st ++ queue st).
     assert (HB : B <> []) by (subst B; destruct (batch_of st); cbn; [assumption|discriminate]).
+    assert (HBsz : qlen B <= threshold - 1 + cap).
+    { subst B. rewrite qlen_app. unfold batch_of. destruct consts_ok as [Ht1 Ht2].
+      destruct (wk st) as [|b0 d0|b0] eqn:Ew0.
+      - replace (qlen (@nil req)) with 0 by reflexivity. lia.
+      - lia.
+      - exfalso. apply (Hw b0). reflexivity. }
     assert (Hfs : firstn n (blocked st) ++ skipn n (blocked st) = blocked st) by apply firstn_skipn.
     assert (Hpend : B ++ firstn n (blocked st) ++ skipn n (blocked st) = pending st)
       by (rewrite Hfs; subst B; unfold pending; rewrite <- app_assoc; reflexivity).
@@ -178,85 +189,77 @@ Section Proofs.
       + unfold wk_ok; cbn [wk]. exact HB.
       + exact Hbl'.
       + unfold running_batch; cbn [wk]. rewrite concat_snoc, Hs. reflexivity.
+      + apply Forall_snoc; [exact Hf|split; cbn [snd]; assumption].
     - apply Z.leb_gt in E.
-      assert (Hshort : qlen (queue st) < cap).
-      { destruct consts_ok as [_ Hle]. subst B. rewrite qlen_app in E. pose proof (qlen_nonneg (batch_of st)). lia. }
-      assert (Hbn : blocked st = []).
-      { destruct (blocked st) as [|p bl] eqn:Eb; [reflexivity|]. assert (qlen (queue st) = cap) by (apply Hb; discriminate). lia. }
-      assert (F1 : firstn n (blocked st) = []) by (rewrite Hbn; apply firstn_nil).
-      assert (F2 : skipn n (blocked st) = []) by (rewrite Hbn; apply skipn_nil).
       constructor; cbn [queue blocked wk started answers completed].
       + unfold pending, batch_of; cbn [queue blocked wk]. rewrite Hpend. exact Ho.
       + exact Hcap'.
-      + unfold wk_ok; cbn [wk queue blocked]. repeat split; assumption.
+      + unfold wk_ok; cbn [wk]. split; assumption.
       + exact Hbl'.
       + unfold running_batch; cbn [wk]. rewrite Hs, app_nil_r. reflexivity.
+      + exact Hf.
   Qed.
 
   Lemma Inv_step (arr : list req) (st : state) e : Inv arr st -> Inv (arr ++ arrivals [e]) (step st e).
   Proof.
     intro I. pose proof (inv_order _ _ I) as Ho. pose proof (inv_cap _ _ I) as Hc.
     pose proof (inv_wk _ _ I) as Hw. pose proof (inv_blocked _ _ I) as Hb. pose proof (inv_started _ _ I) as Hs.
-    pose proof cap_pos as Hcp.
-    destruct e as [r t|t|t]; cbn [arrivals Server.step].
-    - (* Arrive *)
+    pose proof (inv_batches _ _ I) as Hf.
+    pose proof cap_pos as Hcp. destruct consts_ok as [Hth1 Hth2].
+    destruct e as [r t|t|t|t]; cbn [arrivals Server.step].
+    - (* Arrive: put on the queue or block *)
       destruct (qlen (queue st) <? cap) eqn:E.
       + apply Z.ltb_lt in E.
         assert (Hbn : blocked st = []) by (eapply blocked_nil_of_short; eassumption).
-        destruct (wk st) as [|b d|b] eqn:Ew.
-        * (* Idle *)
-          unfold wk_ok in Hw; rewrite Ew in Hw. destruct Hw as [Hq0 _].
-          apply Inv_resume; cbn [queue blocked wk started answers completed].
-          -- intros b. rewrite ?Ew. discriminate.
-          -- rewrite Hq0. discriminate.
-          -- rewrite Hq0. cbn. lia.
-          -- rewrite Hbn. intro H; congruence.
-          -- rewrite ?Ew. exact Logic.I.
-          -- rewrite <- Ho. unfold pending, batch_of; cbn [queue blocked wk]. rewrite ?Ew, Hq0, Hbn. cbn [app].
-             rewrite !app_nil_r. reflexivity.
-          -- rewrite Hs. unfold running_batch. rewrite ?Ew. apply app_nil_r.
-        * (* Gathering *)
-          unfold wk_ok in Hw; rewrite Ew in Hw. destruct Hw as (Hq0 & _ & Hbne & Hlt).
-          apply Inv_resume; cbn [queue blocked wk started answers completed].
-          -- intros b'. rewrite ?Ew. discriminate.
-          -- rewrite Hq0. discriminate.
-          -- rewrite Hq0. cbn. lia.
-          -- rewrite Hbn. intro H; congruence.
-          -- rewrite ?Ew. exact Hlt.
-          -- rewrite <- Ho. unfold pending, batch_of; cbn [queue blocked wk]. rewrite ?Ew, Hq0, Hbn. cbn [app].
-             rewrite !app_nil_r. rewrite <- app_assoc. reflexivity.
-          -- rewrite Hs. unfold running_batch. rewrite ?Ew. apply app_nil_r.
-        * (* Running: the queue grows *)
-          rewrite (resume_running _ t b) by reflexivity.
-          constructor; cbn [queue blocked wk started answers completed].
-          -- rewrite <- Ho. unfold pending, batch_of; cbn [queue blocked wk]. rewrite ?Ew, Hbn. rewrite !app_nil_r.
-             rewrite <- !app_assoc. reflexivity.
-          -- rewrite qlen_app. unfold qlen at 2. cbn [length]. lia.
-          -- unfold wk_ok in *; cbn [wk]. rewrite Ew in *. exact Hw.
-          -- rewrite Hbn. intro H; congruence.
-          -- unfold running_batch in *; cbn [wk]. rewrite Ew in Hs. exact Hs.
+        constructor; cbn [queue blocked wk started answers completed].
+        * rewrite <- Ho. unfold pending, batch_of; cbn [queue blocked wk]. rewrite Hbn. rewrite !app_nil_r.
+          rewrite <- !app_assoc. reflexivity.
+        * rewrite qlen_app. unfold qlen at 2. cbn [length]. lia.
+        * exact Hw.
+        * rewrite Hbn. intro H; congruence.
+        * exact Hs.
+        * exact Hf.
       + apply Z.ltb_ge in E.
-        assert (Hrun : exists b, wk st = Running b).
-        { unfold wk_ok in Hw. destruct (wk st) as [|b d|b]; [| |exists b; reflexivity];
-            destruct Hw as [Hq0 _]; rewrite Hq0 in E; cbn in E; lia. }
-        destruct Hrun as [b Ew].
         constructor; cbn [queue blocked wk started answers completed].
         * rewrite <- Ho. unfold pending, batch_of; cbn [queue blocked wk]. rewrite <- !app_assoc. reflexivity.
         * exact Hc.
-        * unfold wk_ok in *; cbn [wk]. rewrite Ew in *. exact Hw.
+        * exact Hw.
         * intros _. lia.
-        * unfold running_batch in *; cbn [wk]. exact Hs.
+        * exact Hs.
+        * exact Hf.
+    - (* Wake *)
+      rewrite app_nil_r.
+      destruct (wk st) as [|b d|b] eqn:Ew.
+      + destruct (queue st) as [|r q] eqn:Eq; [rewrite resume_nil by exact Eq; exact I|].
+        apply Inv_resume; try assumption.
+        * intros b. rewrite Ew. discriminate.
+        * rewrite Eq. discriminate.
+        * rewrite Eq. exact Hc.
+        * rewrite Eq. exact Hb.
+        * rewrite Ew. exact Logic.I.
+        * rewrite Hs. unfold running_batch. rewrite Ew. apply app_nil_r.
+      + destruct (queue st) as [|r q] eqn:Eq; [rewrite resume_nil by exact Eq; exact I|].
+        unfold wk_ok in Hw; rewrite Ew in Hw. destruct Hw as [Hbne Hlt].
+        apply Inv_resume; try assumption.
+        * intros b'. rewrite Ew. discriminate.
+        * rewrite Eq. discriminate.
+        * rewrite Eq. exact Hc.
+        * rewrite Eq. exact Hb.
+        * rewrite Ew. exact Hlt.
+        * rewrite Hs. unfold running_batch. rewrite Ew. apply app_nil_r.
+      + rewrite (resume_running st t b Ew). exact I.
     - (* Timer *)
       rewrite app_nil_r.
       destruct (wk st) as [|b d|b] eqn:Ew; try exact I.
       destruct (d <=? t); [|exact I].
-      unfold wk_ok in Hw; rewrite Ew in Hw. destruct Hw as (Hq0 & Hb0 & Hbne & Hlt).
+      unfold wk_ok in Hw; rewrite Ew in Hw. destruct Hw as (Hbne & Hlt).
       constructor; cbn [queue blocked wk started answers completed].
       + rewrite <- Ho. unfold pending, batch_of; cbn [wk queue blocked]. rewrite ?Ew. reflexivity.
       + exact Hc.
       + unfold wk_ok; cbn [wk]. exact Hbne.
       + exact Hb.
       + unfold running_batch in *; cbn [wk]. rewrite concat_snoc, Hs, ?Ew, app_nil_r. reflexivity.
+      + apply Forall_snoc; [exact Hf|split; cbn [snd]; [exact Hbne|lia]].
     - (* ModelDone *)
       rewrite app_nil_r.
       destruct (wk st) as [|b d|b] eqn:Ew; try exact I.
@@ -267,13 +270,13 @@ Section Proofs.
       { rewrite <- Ho. unfold pending, batch_of. rewrite ?Ew, map_app, answered_fst, <- app_assoc. reflexivity. }
       destruct (queue st) as [|r q] eqn:Eq.
       + rewrite resume_nil by reflexivity.
-        assert (Hbn : blocked st = []) by (eapply blocked_nil_of_short; [exact I|rewrite Eq; cbn; lia]).
         constructor; cbn [queue blocked wk started answers completed].
         * unfold pending, batch_of; cbn [wk queue blocked]. exact Ho'.
         * cbn. lia.
-        * unfold wk_ok; cbn [wk queue blocked]. split; [reflexivity|exact Hbn].
-        * rewrite Hbn. intro H; congruence.
+        * unfold wk_ok; cbn [wk]. exact Logic.I.
+        * exact Hb.
         * unfold running_batch; cbn [wk]. rewrite app_nil_r. exact Hs'.
+        * exact Hf.
       + apply Inv_resume; cbn [queue blocked wk started answers completed].
         * intros b'. discriminate.
         * discriminate.
@@ -282,6 +285,7 @@ Section Proofs.
         * exact Logic.I.
         * unfold pending, batch_of; cbn [wk queue blocked]. exact Ho'.
         * exact Hs'.
+        * exact Hf.
   Qed.
 
   Lemma Inv_run_from : forall evs arr st, Inv arr st -> Inv (arr ++ arrivals evs) (run_from st evs).
@@ -332,11 +336,13 @@ Section Proofs.
   Theorem no_spurious evs r : In r (map fst (answers (run evs))) -> In r (arrivals evs).
   Proof. intro H. rewrite <- (service_order evs). apply in_or_app. left. exact H. Qed.
 
-  Theorem quiescent_all_answered evs : wk (run evs) = Idle -> map fst (answers (run evs)) = arrivals evs.
+  Theorem quiescent_all_answered evs :
+    wk (run evs) = Idle -> queue (run evs) = [] -> map fst (answers (run evs)) = arrivals evs.
   Proof.
-    intro Hw. pose proof (service_order evs) as Ho. pose proof (inv_wk _ _ (Inv_run evs)) as Hk.
-    unfold wk_ok in Hk. unfold batch_of in Ho. rewrite Hw in Hk, Ho. destruct Hk as [Hq Hb].
-    rewrite Hq, Hb in Ho. cbn [app] in Ho. rewrite app_nil_r in Ho. exact Ho.
+    intros Hw Hq. pose proof (service_order evs) as Ho. pose proof cap_pos as Hcp.
+    assert (Hb : blocked (run evs) = []).
+    { eapply blocked_nil_of_short; [apply Inv_run|]. rewrite Hq. cbn. lia. }
+    unfold batch_of in Ho. rewrite Hw, Hq, Hb in Ho. cbn [app] in Ho. rewrite app_nil_r in Ho. exact Ho.
   Qed.
 
   (* the model calls, concatenated in call order, are a prefix of the arrival order *)
@@ -348,41 +354,12 @@ Section Proofs.
     unfold running_batch, batch_of. destruct (wk (run evs)); rewrite <- ?app_assoc; cbn [app]; rewrite ?app_nil_r; reflexivity.
   Qed.
 
-  Theorem batches_nonempty evs t b : In (t, b) (started (run evs)) -> b <> [].
+  (* every model call holds at least one and at most threshold - 1 + cap requests: at most threshold - 1
+     are gathered one wake-up at a time, then a whole queue (at most cap) is drained without suspending *)
+  Theorem batch_size_bound evs t b : In (t, b) (started (run evs)) -> b <> [] /\ qlen b <= threshold - 1 + cap.
   Proof.
-    revert t b. unfold Server.run.
-    assert (G : forall evs st arr, Inv arr st -> (forall t b, In (t, b) (started st) -> b <> []) ->
-                forall t b, In (t, b) (started (run_from st evs)) -> b <> []).
-    { clear evs. induction evs as [|e evs IH]; intros st arr I Hst; [exact Hst|].
-      change (run_from st (e :: evs)) with (run_from (step st e) evs).
-      apply (IH _ _ (Inv_step _ _ e I)).
-      intros t b Hin. pose proof (inv_wk _ _ (Inv_step _ _ e I)) as Hk.
-      pose proof (inv_started _ _ (Inv_step _ _ e I)) as Hs'.
-      (* either an old entry or the batch that just started, which is the running one *)
-      assert (Hcases : started (step st e) = started st \/
-                       exists t' b', started (step st e) = started st ++ [(t', b')] /\ wk (step st e) = Running b').
-      { destruct e as [r t0|t0|t0]; cbn [Server.step].
-        - destruct (qlen (queue st) <? cap); [|left; reflexivity].
-          match goal with |- context [resume ?s t0] => set (s0 := s) end.
-          destruct (queue s0) as [|r0 q0] eqn:Eq0; [rewrite resume_nil by exact Eq0; left; reflexivity|].
-          destruct (wk s0) as [|b0 d0|b0] eqn:Ew0.
-          + unfold Server.resume. rewrite Eq0, Ew0. destruct (inner q0 [r0]) as [b' brk]. destruct (refill _ _ _) as [q' bl'].
-            destruct brk; [right; exists t0, b'; split; reflexivity|left; reflexivity].
-          + unfold Server.resume. rewrite Eq0, Ew0. destruct (inner q0 (b0 ++ [r0])) as [b' brk]. destruct (refill _ _ _) as [q' bl'].
-            destruct brk; [right; exists t0, b'; split; reflexivity|left; reflexivity].
-          + rewrite (resume_running _ _ _ Ew0). left; reflexivity.
-        - destruct (wk st) as [|b0 d0|b0]; try (left; reflexivity).
-          destruct (d0 <=? t0); [right; exists t0, b0; split; reflexivity|left; reflexivity].
-        - destruct (wk st) as [|b0 d0|b0]; try (left; reflexivity).
-          match goal with |- context [resume ?s t0] => set (s0 := s) end.
-          destruct (queue s0) as [|r0 q0] eqn:Eq0; [rewrite resume_nil by exact Eq0; left; reflexivity|].
-          unfold Server.resume. rewrite Eq0. cbn [wk s0]. destruct (inner q0 [r0]) as [b' brk]. destruct (refill _ _ _) as [q' bl'].
-          destruct brk; [right; exists t0, b'; split; reflexivity|left; reflexivity]. }
-      destruct Hcases as [Heq|(t' & b' & Heq & Hrun)].
-      - rewrite Heq in Hin. apply (Hst t b Hin).
-      - rewrite Heq in Hin. apply in_app_or in Hin. destruct Hin as [Hin|[Hin|[]]]; [apply (Hst t b Hin)|].
-        inversion Hin; subst. unfold wk_ok in Hk. rewrite Hrun in Hk. exact Hk. }
-    intros t b. apply (G evs (init A) [] Inv_init). intros ? ? [].
+    intro H. pose proof (inv_batches _ _ (Inv_run evs)) as Hf.
+    rewrite Forall_forall in Hf. exact (Hf _ H).
   Qed.
 
   (* ---- the response a request receives is the network's value on its own position *)
@@ -510,12 +487,12 @@ Proof. intros p k. unfold f_local, ref_frow. rewrite ref_hash_padding. reflexivi
 
 (* ================= examples: the hypotheses of the implication theorems are satisfiable ================= *)
 Definition ex_req (i : Z) (p : list Z) := mkReq i p.
+Definition AW (i : Z) (p : list Z) (t : Z) : list event := [Arrive (ex_req i p) t; Wake t].
 Definition ex_evs1 : list event :=
-  [Arrive (ex_req 0 [1]) 100; Arrive (ex_req 1 [2;5]) 200; Arrive (ex_req 2 [3;5;6]) 300; Arrive (ex_req 3 [4]) 400;
-   Arrive (ex_req 4 [5;5]) 500; Arrive (ex_req 5 [6;5;6]) 600; Arrive (ex_req 6 [7]) 700; Arrive (ex_req 7 [8;5]) 800;
-   Arrive (ex_req 8 [9;5;6]) 900; Arrive (ex_req 9 [10]) 1000].
+  AW 0 [1] 100 ++ AW 1 [2;5] 200 ++ AW 2 [3;5;6] 300 ++ AW 3 [4] 400 ++ AW 4 [5;5] 500 ++ AW 5 [6;5;6] 600 ++
+  AW 6 [7] 700 ++ AW 7 [8;5] 800 ++ [Arrive (ex_req 8 [9;5;6]) 900; Arrive (ex_req 9 [10]) 1000].
 Definition ex_evs2 : list event :=
-  [ModelDone 2850; Timer 3850; ModelDone 3850; Arrive (ex_req 12 [9]) 5000; Arrive (ex_req 13 [9;9]) 5900; Timer 6900;
+  [ModelDone 2850; Timer 3850; ModelDone 3850] ++ AW 12 [9] 5000 ++ AW 13 [9;9] 5900 ++ [Timer 6900;
    Arrive (ex_req 14 [3]) 7000; ModelDone 7250; Timer 8250; ModelDone 10300].
 
 (* answer_is_own: the padding hypothesis holds for a concrete row model whose value depends on the tokens *)
@@ -523,8 +500,9 @@ Example ex_answer_is_own : forall evs r v,
   In (r, v) (answers (run _ ref_frow evs)) -> v = f_local _ ref_frow (rpos r).
 Proof. exact (answer_is_own _ ref_frow ref_frow_padding). Qed.
 Example ex_answers_differ :
-  f_local _ ref_frow [1] <> f_local _ ref_frow [2;5] /\ length (answers (run _ ref_frow (ex_evs1 ++ ex_evs2))) = 13%nat.
-Proof. split; [vm_compute; intro H; discriminate H|vm_compute; reflexivity]. Qed.
+  f_local _ ref_frow [1] <> f_local _ ref_frow [2;5] /\ length (answers (run _ ref_frow (ex_evs1 ++ ex_evs2))) = 13%nat /\
+  timely _ ref_frow [2050; 0; 350; 2050] (ex_evs1 ++ ex_evs2) = true.
+Proof. split; [vm_compute; intro H; discriminate H|split; vm_compute; reflexivity]. Qed.
 
 (* answered_at_most_once: distinct request ids *)
 Example ex_nodup_ids : NoDup (map rid (arrivals (ex_evs1 ++ ex_evs2))).
@@ -538,8 +516,19 @@ Example ex_progress_hyp :
 Proof. vm_compute. repeat split; lia. Qed.
 
 (* quiescent_all_answered: the example schedule ends with an idle worker *)
-Example ex_quiescent : wk (run _ ref_frow (ex_evs1 ++ ex_evs2)) = Idle.
-Proof. vm_compute. reflexivity. Qed.
+Example ex_quiescent : wk (run _ ref_frow (ex_evs1 ++ ex_evs2)) = Idle /\ queue (run _ ref_frow (ex_evs1 ++ ex_evs2)) = [].
+Proof. vm_compute. split; reflexivity. Qed.
+
+(* batch_size_bound is tight: the worker gathers threshold - 1 = 7 requests one wake-up at a time, then
+   cap + 1 = 81 requests arrive inside the gather window before it runs again (80 queued, 1 blocked in put);
+   it drains the whole queue without suspending: a model call of 87 = threshold - 1 + cap requests *)
+Definition ex_trickle : list event := flat_map (fun i => AW (Z.of_nat i) [Z.of_nat i] (100 * Z.of_nat i)) (seq 1 7).
+Definition ex_window : list event := map (fun i => Arrive (ex_req (Z.of_nat i) [Z.of_nat i]) 1000) (seq 8 81).
+Example ex_batch_87 :
+  map (fun tb => (fst tb, qlen (snd tb))) (started (run _ ref_frow (ex_trickle ++ ex_window ++ [Wake 1000]))) = [(1000, 87)] /\
+  qlen (queue (run _ ref_frow (ex_trickle ++ ex_window ++ [Wake 1000]))) = 1 /\
+  threshold - 1 + cap = 87.
+Proof. vm_compute. repeat split; reflexivity. Qed.
 
 (* bytes_roundtrip: float32 bit patterns are words (0.0, 1.0, a NaN with all bits set) *)
 Example ex_words : Forall is_word [0; 1065353216; 4294967295] /\
